@@ -16,7 +16,7 @@ RUN_TARGETS = ["run/Run_Krpc.vo"]
 
 SIZES = {
     #            valid  variants/msg  rejects  malformed  nesting  trunc-bases  garbage
-    "quick":    (500,   2,            250,     1500,      72,      6,           150),
+    "quick":    (400,   2,            200,     1200,      72,      6,           120),
     "thorough": (12000, 2,            6000,    60000,     1500,    120,         4000),
 }
 
